@@ -61,13 +61,26 @@ def ensure_gosum():
         shutil.copyfile(src, dst)
 
 
+def modfile_args():
+    """VERIF_REPO=<dir> (a scratch worktree with a mutation) builds the harness against that tree instead
+    of /repo, without touching /repo: an alternative go.mod with the replace directive redirected."""
+    if str(REPO) == "/repo":
+        return []
+    d = WORK / "altmod"
+    d.mkdir(parents=True, exist_ok=True)
+    txt = (HARNESS / "go.mod").read_text().replace("=> /repo", "=> " + str(REPO))
+    (d / "go.mod").write_text(txt)
+    shutil.copyfile(REPO / "go.sum", d / "go.sum")
+    return ["-modfile=" + str(d / "go.mod")]
+
+
 def go_build(cmd, race=False, tags="verif"):
     """Build harness/cmd/<cmd> against /repo's current working tree (hooks on)."""
     ensure_gosum()
-    bindir = WORK / "bin"
+    bindir = WORK / ("bin" if str(REPO) == "/repo" else "bin-alt")
     bindir.mkdir(parents=True, exist_ok=True)
     out = bindir / (cmd + ("-race" if race else ""))
-    args = ["go", "build", "-tags", tags, "-o", str(out)]
+    args = ["go", "build", "-tags", tags, "-o", str(out)] + modfile_args()
     if race:
         args.append("-race")
     args.append("./cmd/" + cmd)
